@@ -2773,3 +2773,115 @@ func (e *nilEngine) trueImpliesCell(rv ssa.Value, key string, at *ssa.BasicBlock
 		return has
 	}
 }
+
+// runFieldMapsMade: an assignment to an entry of a nil map panics. A map that is kept in a struct field and written
+// with m[k] = v somewhere in scope is made where the struct is built: every function of the module that builds a value
+// of that struct type stores a freshly made map into the field in a block that dominates all its returns (not under an
+// option, not lazily on another path).
+func runFieldMapsMade(c *Ctx, fns []*ssa.Function, rule string) {
+	p := c.P
+	type fkey struct {
+		tn    string
+		field int
+	}
+	written := map[fkey]ssa.Instruction{}
+	fnames := map[fkey]string{}
+	for _, fn := range fns {
+		for _, b := range fn.Blocks {
+			for _, in := range b.Instrs {
+				mu, ok := in.(*ssa.MapUpdate)
+				if !ok {
+					continue
+				}
+				ld, ok := mu.Map.(*ssa.UnOp)
+				if !ok || ld.Op != token.MUL {
+					continue
+				}
+				fa, ok := ld.X.(*ssa.FieldAddr)
+				if !ok {
+					continue
+				}
+				k := fkey{typeName(fa.X.Type()), fa.Field}
+				if _, seen := written[k]; !seen {
+					written[k] = mu
+					fnames[k] = fieldName(fa.X.Type(), fa.Field)
+				}
+			}
+		}
+	}
+	var keys []fkey
+	for k := range written {
+		keys = append(keys, k)
+	}
+	sort.Slice(keys, func(i, j int) bool {
+		if keys[i].tn != keys[j].tn {
+			return keys[i].tn < keys[j].tn
+		}
+		return keys[i].field < keys[j].field
+	})
+	for _, k := range keys {
+		bad, nBuilt := "", 0
+		for _, fn := range p.ModFns {
+			for _, b := range fn.Blocks {
+				for _, in := range b.Instrs {
+					al, ok := in.(*ssa.Alloc)
+					if !ok || typeName(al.Type()) != k.tn {
+						continue
+					}
+					if _, isStruct := deref(al.Type()).Underlying().(*types.Struct); !isStruct {
+						continue
+					}
+					// a copy of an existing value (a spilled receiver or parameter, an assignment of a whole struct) is
+					// not a construction
+					copied := fn.Synthetic != ""
+					for _, r := range *al.Referrers() {
+						if st, isSt := r.(*ssa.Store); isSt && st.Addr == ssa.Value(al) {
+							copied = true
+						}
+					}
+					if copied {
+						continue
+					}
+					nBuilt++
+					made := false
+					for _, r := range *al.Referrers() {
+						fa, isFA := r.(*ssa.FieldAddr)
+						if !isFA || fa.Field != k.field {
+							continue
+						}
+						for _, rr := range *fa.Referrers() {
+							st, isSt := rr.(*ssa.Store)
+							if !isSt || st.Addr != ssa.Value(fa) {
+								continue
+							}
+							if _, isMake := st.Val.(*ssa.MakeMap); !isMake {
+								// a map the builder was handed, put into the literal as it is built
+								if k, isK := st.Val.(*ssa.Const); (isK && k.IsNil()) || st.Block() != al.Block() {
+									continue
+								}
+							}
+							dominatesAll := true
+							if st.Block() == al.Block() {
+								made = true // a field of the literal that builds the value
+							}
+							for _, rb := range fn.Blocks {
+								if _, isRet := rb.Instrs[len(rb.Instrs)-1].(*ssa.Return); isRet && !st.Block().Dominates(rb) {
+									dominatesAll = false
+								}
+							}
+							if dominatesAll {
+								made = true
+							}
+						}
+					}
+					if !made && bad == "" {
+						bad = shortName(fn) + " builds a " + k.tn + " at " + p.ipos(al) + " without making the map on every path"
+					}
+				}
+			}
+		}
+		fname := fnames[k]
+		c.Check(bad == "" && nBuilt > 0, rule, k.tn, "the map in field "+fname+" is made wherever the struct is built", p.ipos(written[k]), fmt.Sprintf("%d constructions, each stores make(map...) into the field in a block that dominates its returns", nBuilt), bad+": the assignment to an entry of that map (e.g. at "+p.ipos(written[k])+") panics on the nil map")
+	}
+	c.Stats[rule+" field-held maps written"] = len(keys)
+}
